@@ -12,7 +12,7 @@ def parseKeys (j : Json) (k : String) : Keys :=
 
 /-- corrupt kinds the model treats as "does not parse" -/
 def parseCOp (j : Json) (o : Json := Json.null) : Option COp :=
-  let site := (toString (jnat j "site" % 3)).toList
+  let site := (toString (jnat j "site" % 5)).toList
   match jstr (jget j "k") with
   -- model time in milliseconds: every operation of the real run takes a little time (see `tick`)
   | "invoke" => some (.invoke site (parseKeys j "kb") (parseKeys j "ka") (jint j "timeout" * 1000) (jbool j "msg"))
